@@ -770,6 +770,23 @@ impl<'tcx> Cx<'tcx> {
         J::Obj(v)
     }
 
+    fn rr_attrs(&self, did: DefId) -> J {
+        let mut out: Vec<J> = Vec::new();
+        #[allow(deprecated)]
+        for a in self.tcx.get_all_attrs(did).iter() {
+            if a.name().map(|n| n.as_str() == "rustradio").unwrap_or(false) {
+                if let Some(list) = a.meta_item_list() {
+                    for it in list.iter() {
+                        if let Some(n) = it.name() {
+                            out.push(J::s(n.to_string()));
+                        }
+                    }
+                }
+            }
+        }
+        J::Arr(out)
+    }
+
     fn adt(&self, did: DefId) -> J {
         let tcx = self.tcx;
         let def = tcx.adt_def(did);
@@ -782,6 +799,7 @@ impl<'tcx> Cx<'tcx> {
                     ("name", J::s(f.name.to_string())),
                     ("ty", self.ty(fty)),
                     ("vis", J::s(format!("{:?}", f.vis))),
+                    ("rr", self.rr_attrs(f.did)),
                 ]));
             }
             variants.push(J::Obj(vec![
@@ -803,6 +821,7 @@ impl<'tcx> Cx<'tcx> {
             ),
             ("vis", J::s(format!("{:?}", tcx.visibility(did)))),
             ("span", self.span(tcx.def_span(did))),
+            ("rr", self.rr_attrs(did)),
             ("variants", J::Arr(variants)),
         ])
     }
